@@ -178,6 +178,11 @@ func (x *Exec) invoke(st *State, recv SVal, recvT types.Type, method string, sig
 		// interface contract of Observable: the returned Subscription is never nil
 		st.assume(not(eq(res[0].T, "nil")))
 	}
+	for i := range res {
+		if res[i].K == KU {
+			res[i].Src = name + "." + method + "()"
+		}
+	}
 	ev.Res = res
 	x.event(st, ev)
 	k(st, Exit{Kind: ExitReturn, Results: res})
